@@ -6,6 +6,7 @@ Open Scope Z_scope.
 (* case 0 (host)  : (0 cols rows (anim...) (now...))   anim = (style row text speed loop)
    case 1 (device): (1 cols rows (anim...) (now...))
    case 2 (emit)  : (2 (site...) (site...))            site = (name style)     setup sites, loop sites
+   case 3 (sched) : (3 speed endless budget (now...))  the specification schedule [due_flags] from last = 0
    style: 0 scroll, 1 blink, 2 typewriter, 3 bounce *)
 
 Definition un_style (z : Z) : option style :=
@@ -129,6 +130,11 @@ Definition run (v : wv) : wv :=
               let m0 := apply_devs ev0 (blank_matrix cols rows) in
               wok [WL (map w_dev ev0); w_matrix m0; WL (d_ticks cols sts m0 ts)]
           end
+      | _, _ => wbad
+      end
+  | WL [WI 3; WI speed; lp; WI budget; nows] =>
+      match un_bool lp, un_text nows with
+      | Some endless, Some ts => wok [WL (map wbool (due_flags speed endless 0 budget ts))]
       | _, _ => wbad
       end
   | WL [WI 2; WL s1; WL s2] =>
